@@ -10,7 +10,7 @@
    equality, every program (any number of threads, arbitrary options / interceptors / checks),
    EVERY schedule, the repaired code (v0 = false). *)
 From SC Require Import Base.Prelude Resource.Impl Resource.Spec Resource.Pull Resource.ImplProofs
-  Resource.Flat Resource.FlatProofs Resource.Judge Conc.Lts Conc.LtsProofs Conc.FlatInst Conc.Judge.
+  Resource.Flat Resource.FlatProofs Resource.Judge Conc.Lts Conc.LtsProofs Conc.DeleteProofs Conc.FlatInst Conc.Judge.
 From Coq Require Import Sorted.
 
 Section C02.
@@ -133,6 +133,31 @@ Section C02.
     nth_error (st_pcs (run sched s0)) t1 = Some (PDone (OVal (inl nv1))) ->
     nth_error (st_pcs (run sched s0)) t2 = Some (PDone (OVal (inl nv2))) -> False.
   Proof. apply adds_at_most_one; assumption. Qed.
+  (* with Deletes in the program: two successful Adds of one id are separated, in the witness
+     order, by a successful Delete of that id *)
+  Theorem C02_adds_separated_by_delete : forall sched t1 t2 id1 id2 msg1 msg2 o1 o2 nv1 nv2 k1 k2,
+    nth_error prog t1 = Some (CUpdate id1 msg1 o1) -> nth_error prog t2 = Some (CUpdate id2 msg2 o2) ->
+    apply_id idfun id1 = apply_id idfun id2 -> wo_expect_absent o2 = true ->
+    In (t1, OVal (inl nv1), k1) (st_wit (run sched s0)) -> In (t2, OVal (inl nv2), k2) (st_wit (run sched s0)) ->
+    (k1 < k2)%nat ->
+    exists k3 t3 id3 o3 b, (k1 < k3 < k2)%nat /\ nth_error prog t3 = Some (CDelete id3 o3) /\
+                           apply_id idfun id3 = apply_id idfun id1 /\
+                           In (t3, ODel (Some b) None, k3) (st_wit (run sched s0)).
+  Proof. apply adds_separated_by_delete; assumption. Qed.
+
+  (* a Delete returns Unavailable only after five lost races: at least five distinct commits to its
+     id (successful Updates / Adds / Deletes of OTHER calls) were linearized strictly between two
+     of its own steps — each of its five re-reads under the lock found another version *)
+  Theorem C02_unavailable_after_five_lost_races : forall sched t id0 o,
+    nth_error prog t = Some (CDelete id0 o) ->
+    nth_error (st_pcs (run sched s0)) t = Some (PDone (OLost 14)) ->
+    exists r0 r ms, nth_error sched r0 = Some t /\ nth_error sched r = Some t /\
+                    (5 <= List.length ms)%nat /\ NoDup ms /\
+                    forall m, In m ms ->
+                      (r0 < m < r)%nat /\
+                      exists e, In e (st_wit (run sched s0)) /\ wit_k e = m /\ wit_tid e <> t /\
+                                commits_to idfun prog (apply_id idfun id0) e.
+  Proof. apply unavailable_after_five_lost_races; assumption. Qed.
 End C02.
 
 Print Assumptions C02_linearizable.
@@ -144,6 +169,8 @@ Print Assumptions C02_update_cas_only_if_satisfied.
 Print Assumptions C02_delete_removes_what_it_checked.
 Print Assumptions C02_no_lost_increment.
 Print Assumptions C02_adds_at_most_one.
+Print Assumptions C02_adds_separated_by_delete.
+Print Assumptions C02_unavailable_after_five_lost_races.
 
 (* ---------- the pinned commit ---------- *)
 Definition plain_wo := mkFWO None None None None false None false None false None None false false false false.
@@ -157,7 +184,7 @@ Theorem C02_two_adds_v0_refuted :
   map (@result_of fmsg) (st_pcs s) = [Some (OVal (inl (mkF 10 0 0))); Some (OVal (inl (mkF 11 0 0)))] /\
   final_list (w_c (st_w s)) = [("a"%string, mkF 11 0 0)] /\
   C02_ok (CaseSched None None [] two_adds [0; 1; 0; 1; 0; 1]%nat
-                    [mkFO (Some (mkF 10 0 0)) 0; mkFO (Some (mkF 11 0 0)) 0] None [("a"%string, mkF 11 0 0)] [] []) = false.
+                    [mkFO (Some (mkF 10 0 0)) 0; mkFO (Some (mkF 11 0 0)) 0] None [("a"%string, mkF 11 0 0)] [] [] []) = false.
 Proof. vm_compute. repeat split; reflexivity. Qed.
 Print Assumptions C02_two_adds_v0_refuted.
 
